@@ -401,7 +401,7 @@ def gr_8a(ctx, rep):
         computed = set()
         per = {}
         for g in ctx.grammars:
-            c = containers(g, targets)
+            c = containers(g, targets) - targets
             per[g.name] = c
             computed |= c
         missing = computed - table
@@ -506,3 +506,80 @@ def gr_11(ctx, rep):
                witness=' '.join(w) if w is not None else None)
     rep.assume("CPython's syntax is convex over 3.6-3.14 at production level: what V-1 and V+1 both accept, V accepts")
     rep.minimum('GR-11', 500)
+
+
+# ---------------------------------------------------------------------------
+BINDING_TERMINALS = ("':='", "'for'", "'del'", "'import'", "'as'")
+# rule -> the table type whose get_defined_names() looks into it (one line of reason each)
+DELEGATED = {
+    'with_item': ('with_stmt', "WithStmt.get_defined_names reads the 'as' target of every with_item"),
+    'import_as_name': ('import_from', 'ImportFrom._as_name_tuples reads the alias'),
+    'import_as_names': ('import_from', 'list of import_as_name'),
+    'dotted_as_name': ('import_name', 'ImportName._dotted_as_names reads the alias'),
+    'dotted_as_names': ('import_name', 'list of dotted_as_name'),
+    'comp_for': ('sync_comp_for', "wrapper ['async'] sync_comp_for; the 'for' target lives in sync_comp_for"),
+    'async_stmt': ('for_stmt', "wrapper 'async' (funcdef | with_stmt | for_stmt)"),
+}
+SPECIAL_CASED = {
+    'except_clause': "Name.get_definition tests `type_ == 'except_clause'` explicitly",
+}
+
+
+def gr_8b(ctx, rep):
+    rep.rule('GR-8b', 'every grammar rule whose right-hand side contains a binding operator (:=, for, del, import, as) is '
+                      'a definition type, is delegated to one, or is special-cased in Name.get_definition')
+    table = module_set(ctx, PYTREE, '_GET_DEFINITION_TYPES')
+    gd = ctx.prog.func(PYTREE, 'Name.get_definition')
+    src = norm(gd.node, 5000)
+    for k in SPECIAL_CASED:
+        rep.ob('GR-8b', PYTREE, gd.qual, 'special case %r' % k, ("'%s'" % k) in src,
+               'the explicit test for %s vanished from Name.get_definition' % k)
+    uses_table = '_GET_DEFINITION_TYPES' in src
+    rep.ob('GR-8b', PYTREE, gd.qual, 'consults _GET_DEFINITION_TYPES', uses_table, 'definition lookup no longer uses the table')
+    seen = set()
+    for g in ctx.grammars:
+        shape_appearance(g)
+        for r, d in sorted(g.dfas.items()):
+            labels = d.labels()
+            for b in BINDING_TERMINALS:
+                if b not in labels:
+                    continue
+                if r not in g._node_rules:
+                    continue
+                key = (r, b)
+                construct = 'rule %s binds with %s' % (r, b)
+                if r in table:
+                    ok, why = True, ''
+                elif r in DELEGATED and DELEGATED[r][0] in table:
+                    ok, why = True, DELEGATED[r][1]
+                elif r in SPECIAL_CASED:
+                    ok, why = True, SPECIAL_CASED[r]
+                else:
+                    ok = False
+                    why = ('names bound by %s inside a %s node (grammar %s and later) are not reported as definitions: '
+                           '%s is not in _GET_DEFINITION_TYPES and no definition type looks into it' % (b, r, g.name, r))
+                if key in seen and ok:
+                    continue
+                if key in seen:
+                    continue
+                seen.add(key)
+                rep.ob('GR-8b', PYTREE, '<module>', construct, ok, why, witness=g.name if not ok else None)
+    # every table entry is a real node type (or the synthetic 'param')
+    all_rules = set()
+    for g in ctx.grammars:
+        shape_appearance(g)
+        all_rules |= g._node_rules
+    for t in sorted(table):
+        rep.ob('GR-8b', PYTREE, '<module>', '_GET_DEFINITION_TYPES entry %r' % t, t in all_rules or t == 'param',
+               'table entry is not a node type of any grammar')
+        # and its class implements get_defined_names
+    nm = node_map(ctx)
+    for t in sorted(table):
+        cls = nm.get(t)
+        if t == 'param':
+            cls = ctx.prog.cls(PYTREE, 'Param')
+        from ..model import Cls as _Cls
+        ok = isinstance(cls, _Cls) and cls.lookup('get_defined_names') is not None
+        rep.ob('GR-8b', PYPARSER, 'Parser', 'node class of %r has get_defined_names' % t, ok,
+               'definition type %r is built as %s, which has no get_defined_names' % (t, getattr(cls, 'name', cls)))
+    rep.minimum('GR-8b', 20)
